@@ -327,6 +327,10 @@ func init() {
 			return nil, err
 		}
 		res := &WRes{}
+		if j.Use == "jwks-uri" {
+			jwksURIAll("C15", res)
+			return res, nil
+		}
 		for _, kid := range c15Kids {
 			for _, key := range c15Keys {
 				for _, cl := range c15Claims {
@@ -382,6 +386,7 @@ func init() {
 				}
 			}
 		}
+		jobs = append(jobs, c15Job{Use: "jwks-uri"})
 		res := r.Pool.Do("c15", jobs, r.Deadline)
 		if !r.MergeJobs(res) {
 			r.Exhaustive = false
@@ -402,7 +407,7 @@ func init() {
 			r.Exhaustive = false
 		}
 		defer overlapPart(r, []string{"bearer-jti", "client-assertion-jti"})
-		r.Bounds = map[string]any{"uses": []string{"private_key_jwt client assertion", "JWT-bearer grant"}, "header_alg": c15Algs, "kid": c15Kids, "signing_key": c15Keys, "claim_deviations": c15Claims,
+		r.Bounds = map[string]any{"jwks_uri": "client assertions resolved through jwks_uri (real fetcher + cache, in-memory transport): 6 look-alike URI pairs x 6 warm-up histories x 4 cross-client presentations", "uses": []string{"private_key_jwt client assertion", "JWT-bearer grant"}, "header_alg": c15Algs, "kid": c15Kids, "signing_key": c15Keys, "claim_deviations": c15Claims,
 			"optional_claim_configs": "jti optional x iat optional (bearer)", "scopes_vs_key_scopes": []string{"a", "photos", "a photos", "none", "a.b"}, "replay_positions": []string{"immediately", "after other requests + 20 s", "after expiry"},
 			"schedules": fmt.Sprintf("2 simultaneous presentations: all interleavings at storage-call granularity (unbounded) and lock granularity (preemption bound 2); 3 simultaneous: storage-call granularity, preemption bound %d", bound3)}
 		r.Rule = "grid: header alg x kid x key x every single claim deviation (x scopes x replay position) on a fresh provider, one-sided against the statement; schedules: stateless depth-first exploration of the real token endpoint under a cooperative scheduler, successes per jti counted on every complete execution; states = executions, transitions = scheduling points executed"
